@@ -140,6 +140,13 @@ def run(ctx, rep, tier):
               "real_target.is_fallthrough and consider(real_target)" in asrc, "C04.d", "DfaCompileCtx._verify_fallthrough_loop.aux",
               "condition points: every branch; plain states: the transition taken for the same symbols, if it is a fallthrough", "cycle walk changed")
 
+    # d2: override redirects are non-consuming moves too
+    rep.rule("C04.d2", "the cycle check follows the non-consuming redirects of actions that may override the next state (append overflow -> out-of-space handler)")
+    follows = re.search(r"for \w+ in \w+\.get_target_override_targets\(\):\s+(?:if [^\n]+\n\s+)*(?:visited\.add\([^\n]+\)\s+)?aux\(", vs) is not None
+    rep.check(follows, "C04.d2", "DfaCompileCtx._verify_fallthrough_loop", "override targets of MAY_GOTO_TARGET actions are successors in the cycle walk",
+              "an append that overflows stores its out-of-space target and re-dispatches WITHOUT consuming the byte, but the cycle check only walks fall-through transitions: "
+              "`loop { try { s += /./; } catch (outofspace) { } }` is accepted and feed() spins once the buffer is full")
+
     # ------------------------------------------------------------------ C04.e re-dispatch at a stored state
     rep.rule("C04.e", "every non-consuming goto (repeatswitch / fall_N / skipaction) is preceded by a state store on its emission path")
     n = 0
